@@ -106,6 +106,28 @@ class CommitType(str, Enum):
     LINK_ONLY = "link_only"
     FULL = "full"
 
+    @staticmethod
+    def parse(name: Optional[str]) -> "CommitType":
+        """
+        The commit type for a user-provided name: the documented names ('none', 'links_only', 'full')
+        and the names / values of this enumeration are accepted, in any case. Default: full.
+        """
+        if name is None:
+            return CommitType.FULL
+        aliases = {
+            "none": CommitType.NO_COMMIT,
+            "no_commit": CommitType.NO_COMMIT,
+            "links_only": CommitType.LINK_ONLY,
+            "link_only": CommitType.LINK_ONLY,
+            "full": CommitType.FULL,
+        }
+        key = str(name).strip().lower()
+        if key not in aliases:
+            raise DDSException(
+                f"Unknown commit type '{name}'. The accepted values are 'none', 'links_only' and 'full'"
+            )
+        return aliases[key]
+
 
 def _pprint_exception(e: Exception) -> str:
     return "".join(str(e).split("\n")[:3]).replace("\t", "")
@@ -154,12 +176,12 @@ class DBFSStore(Store):
         from .pandas import PandasFileCodec
 
         slfc = StringLocalFileCodec()
-        plfc = BytesFileCodec()
-        bfc = PickleLocalFileCodec()
+        bfc = BytesFileCodec()
+        plfc = PickleLocalFileCodec()
 
         self._registry = CodecRegistry(
             [PySparkDatabricksCodec()],
-            [slfc, plfc, bfc, PandasFileCodec()],
+            [slfc, bfc, plfc, PandasFileCodec()],
         )
         # Deprecation hack
         # To ensure that older data already written can still be read, add the following compatibility routines:
